@@ -17,15 +17,22 @@ func init() {
 }
 
 // vfMirror folds post-change notifications: ADD carries the new entry, DELETE the removed one.
+type vfMirTop struct {
+	nhg      uint64
+	hasNHGNI bool
+	nhgNI    string
+	md       []byte
+}
+
 type vfMirror struct {
-	v4, v6 map[string]map[string]uint64 // ni -> prefix -> group
-	mpls   map[string]map[uint64]uint64 // ni -> label -> group
+	v4, v6 map[string]map[string]vfMirTop // ni -> prefix -> payload
+	mpls   map[string]map[uint64]vfMirTop // ni -> label -> payload
 	nhg    map[string]map[uint64]int    // ni -> id -> member count
 	nh     map[string]map[uint64]bool
 }
 
 func vfNewMirror() *vfMirror {
-	return &vfMirror{v4: map[string]map[string]uint64{}, v6: map[string]map[string]uint64{}, mpls: map[string]map[uint64]uint64{},
+	return &vfMirror{v4: map[string]map[string]vfMirTop{}, v6: map[string]map[string]vfMirTop{}, mpls: map[string]map[uint64]vfMirTop{},
 		nhg: map[string]map[uint64]int{}, nh: map[string]map[uint64]bool{}}
 }
 
@@ -37,10 +44,10 @@ func (m *vfMirror) hook(op constants.OpType, ts int64, ni string, data ygot.Vali
 			return
 		}
 		if m.v4[ni] == nil {
-			m.v4[ni] = map[string]uint64{}
+			m.v4[ni] = map[string]vfMirTop{}
 		}
 		if add {
-			m.v4[ni][t.GetPrefix()] = t.GetNextHopGroup()
+			m.v4[ni][t.GetPrefix()] = vfMirTop{nhg: t.GetNextHopGroup(), hasNHGNI: t.NextHopGroupNetworkInstance != nil, nhgNI: t.GetNextHopGroupNetworkInstance(), md: t.EntryMetadata}
 		} else {
 			delete(m.v4[ni], t.GetPrefix())
 		}
@@ -49,10 +56,10 @@ func (m *vfMirror) hook(op constants.OpType, ts int64, ni string, data ygot.Vali
 			return
 		}
 		if m.v6[ni] == nil {
-			m.v6[ni] = map[string]uint64{}
+			m.v6[ni] = map[string]vfMirTop{}
 		}
 		if add {
-			m.v6[ni][t.GetPrefix()] = t.GetNextHopGroup()
+			m.v6[ni][t.GetPrefix()] = vfMirTop{nhg: t.GetNextHopGroup(), hasNHGNI: t.NextHopGroupNetworkInstance != nil, nhgNI: t.GetNextHopGroupNetworkInstance(), md: t.EntryMetadata}
 		} else {
 			delete(m.v6[ni], t.GetPrefix())
 		}
@@ -61,14 +68,14 @@ func (m *vfMirror) hook(op constants.OpType, ts int64, ni string, data ygot.Vali
 			return
 		}
 		if m.mpls[ni] == nil {
-			m.mpls[ni] = map[uint64]uint64{}
+			m.mpls[ni] = map[uint64]vfMirTop{}
 		}
 		l, ok := t.GetLabel().(aft.UnionUint32)
 		if !ok {
 			return
 		}
 		if add {
-			m.mpls[ni][uint64(l)] = t.GetNextHopGroup()
+			m.mpls[ni][uint64(l)] = vfMirTop{nhg: t.GetNextHopGroup(), hasNHGNI: t.NextHopGroupNetworkInstance != nil, nhgNI: t.GetNextHopGroupNetworkInstance(), md: t.EntryMetadata}
 		} else {
 			delete(m.mpls[ni], uint64(l))
 		}
@@ -107,19 +114,19 @@ func (m *vfMirror) compare(ref *vfRef) {
 		for k, t := range n.v4 {
 			g, ok := m.v4[name][k]
 			vfAssert(ok, "C16:mirror-has-installed-ipv4-entry")
-			vfAssert(g == t.nhg, "C16:mirror-ipv4-entry-payload")
+			vfAssert(vfAnd(g.nhg == t.nhg, vfAnd(vfEqSV(g.hasNHGNI, g.nhgNI, t.hasNHGNI, t.nhgNI), vfEqBV(g.md != nil, g.md, t.hasMD, t.md))), "C16:mirror-ipv4-entry-payload")
 		}
 		vfAssert(len(m.v6[name]) == len(n.v6), "C16:mirror-ipv6-count")
 		for k, t := range n.v6 {
 			g, ok := m.v6[name][k]
 			vfAssert(ok, "C16:mirror-has-installed-ipv6-entry")
-			vfAssert(g == t.nhg, "C16:mirror-ipv6-entry-payload")
+			vfAssert(vfAnd(g.nhg == t.nhg, vfAnd(vfEqSV(g.hasNHGNI, g.nhgNI, t.hasNHGNI, t.nhgNI), vfEqBV(g.md != nil, g.md, t.hasMD, t.md))), "C16:mirror-ipv6-entry-payload")
 		}
 		vfAssert(len(m.mpls[name]) == len(n.mpls), "C16:mirror-mpls-count")
 		for k, t := range n.mpls {
 			g, ok := m.mpls[name][k]
 			vfAssert(ok, "C16:mirror-has-installed-mpls-entry")
-			vfAssert(g == t.nhg, "C16:mirror-mpls-entry-payload")
+			vfAssert(vfAnd(g.nhg == t.nhg, vfAnd(vfEqSV(g.hasNHGNI, g.nhgNI, t.hasNHGNI, t.nhgNI), vfEqBV(g.md != nil, g.md, t.hasMD, t.md))), "C16:mirror-mpls-entry-payload")
 		}
 		vfAssert(len(m.nhg[name]) == len(n.nhg), "C16:mirror-group-count")
 		for k, g := range n.nhg {
